@@ -5,7 +5,7 @@
 (* out of the VIEW.                                                       *)
 EXTENDS GroupSub, TLC
 
-CONSTANTS Consumers, MaxEpoch, MaxSubs, MaxOps, UsePlain, UseBad, UseBurst
+CONSTANTS Consumers, MaxEpoch, MaxSubs, MaxOps, UsePlain, UseBad, UseBurst, UseFollower, UseBounded, C0
 VARIABLES last, nOps
 mcvars == <<vars, last, nOps>>
 
@@ -13,12 +13,19 @@ Step(a) == /\ nOps < MaxOps /\ nOps' = nOps + 1 /\ last' = a
 
 MCInit == Init /\ last = [a |-> "Open"] /\ nOps = 0
 
-MCSubscribe(g, c, e, bad) ==
+\* Requests are generated where their dimensions matter: the ReadISRReplica
+\* flag and the follower only with the first consumer / epoch 1 / valid
+\* open-ended positions (a follower never looks at them for a group request, and
+\* a plain one has no epoch); a stop position only on valid requests.
+MCSubscribe(n, ris, g, c, e, bad, stop) ==
+  LET q == [n |-> n, ris |-> ris, g |-> g, c |-> c, e |-> e, bad |-> bad, stop |-> stop] IN
   /\ Len(subs) < MaxSubs
   /\ (g = NoGroup) => UsePlain
   /\ bad => UseBad
-  /\ DoSubscribe(g, c, e, bad)
-  /\ Step([a |-> "Subscribe", g |-> g, c |-> c, e |-> e, bad |-> bad])
+  /\ (n = "F" \/ ris) => (UseFollower /\ c = C0 /\ e = 1 /\ ~bad /\ stop = "none")
+  /\ (stop # "none") => (UseBounded /\ ~bad)
+  /\ DoSubscribe(q)
+  /\ Step([a |-> "Subscribe", q |-> q])
 
 \* two consumers subscribe at the same time
 MCBurst(g, c1, c2, e) ==
@@ -31,7 +38,8 @@ MCCancel(s) == DoCancelByClient(s) /\ Step([a |-> "Cancel", s |-> s])
 MCLoopExit(s) == DoLoopExit(s) /\ Step([a |-> "LoopExit", s |-> s])
 
 MCNext ==
-  \/ \E g \in Groups \cup {NoGroup}, c \in Consumers, e \in 1..MaxEpoch, bad \in BOOLEAN : MCSubscribe(g, c, e, bad)
+  \/ \E n \in Nodes, ris \in BOOLEAN, g \in Groups \cup {NoGroup}, c \in Consumers, e \in 1..MaxEpoch,
+        bad \in BOOLEAN, stop \in {"none", "bounded"} : MCSubscribe(n, ris, g, c, e, bad, stop)
   \/ \E g \in Groups, c1 \in Consumers, c2 \in Consumers, e \in 1..MaxEpoch : MCBurst(g, c1, c2, e)
   \/ \E s \in 1..MaxSubs : MCCancel(s)
   \/ \E s \in 1..MaxSubs : MCLoopExit(s)
@@ -41,7 +49,7 @@ MCSpec == MCInit /\ [][MCNext]_mcvars
 \* every step, as the code performs it, satisfies what C13 demands of it
 StepOK ==
   LET a == last' IN
-  CASE a.a = "Subscribe" -> P_Subscribe(a.g, a.c, a.e, a.bad)
+  CASE a.a = "Subscribe" -> P_Subscribe(a.q)
     [] a.a = "Burst" -> P_Burst(a.g, a.cs, a.e)
     [] a.a = "Cancel" -> P_Cancel(a.s)
     [] a.a = "LoopExit" -> P_LoopExit(a.s)
